@@ -675,6 +675,27 @@ def check(prop, tier, pat=None, keep=False):
             print("VIOLATION property=C20 replay=%s no-failing-input-found" % path)
         if extra["error"]:
             print("UNDECIDED property=C20 job=static_scan %s" % extra["error"])
+    if prop == "C18":
+        import c18scan
+        try:
+            r18 = c18scan.run_scan()
+            err = ("goto-cc failed on %d files: %s" % (len(r18["errors"]), r18["errors"][0]["file"])) if r18["errors"] else ""
+        except Exception as e:
+            r18, err = {"files": 0, "callees": [], "findings": []}, "scan failed: %r" % e
+        extra = {"new_writes": r18["findings"], "error": err, "summary": {
+            "translation_units": r18["files"], "fail_closed_callees": r18["callees"], "call_sites_not_testing_the_result": r18["findings"],
+            "limitation": "syntactic: the first use of the returned value must compare it with 1; data flow after the test is not followed"}}
+        for w in r18["findings"]:
+            dest = os.path.join(OUTROOT, "replay", prop, "callsite_scan")
+            os.makedirs(dest, exist_ok=True)
+            path = os.path.join(dest, "replay.json")
+            json.dump({"obligation": "the result of a fail-closed entropy-consuming call is compared with 1 before the caller continues",
+                       "call_site": w, "verifier_output": "goto-instrument --show-goto-functions: CALL %s at %s:%s in %s (%s)" % (
+                           w["callee"], w["file"], w["line"], w["function"], w["why"]), "native_reproduced": None}, open(path, "w"), indent=1)
+            print("FAILED-OBLIGATION property=C18 job=callsite_scan %s:%s %s calls %s: %s" % (w["file"], w["line"], w["function"], w["callee"], w["why"]))
+            print("VIOLATION property=C18 replay=%s no-failing-input-found" % path)
+        if err:
+            print("UNDECIDED property=C18 job=callsite_scan %s" % err)
     # report
     rc = 0
     if extra and extra["new_writes"]:
